@@ -376,7 +376,7 @@ def _classify_cond(cn, block):
 def unit(run, tier=None, ndebug=True):
     from . import witness
     tier = tier or run.tier
-    pols = ["release", "debug", "p_def"] if tier == "quick" else ["release", "debug", "p_def", "p_map", "p_ind", "p_proj", "p_nohash", "p_throw"]
+    pols = ["release", "debug", "p_def", "p_map"] if tier == "quick" else ["release", "debug", "p_def", "p_map", "p_ind", "p_proj", "p_nohash", "p_throw"]
     src, _ = witness.call_matrix(pols, ["rr", "r"], witness.update_block(pols))
     ast = astq.Ast(common.ast_json(run, src, "compiler_%s_%s" % (tier, "nd" if ndebug else "dbg"), ndebug=ndebug, funcs=COMPILER_FUNCS, cfg=CFG_FUNCS))
     run.units.append({"unit": "compiler AST", "policies": pols, "ndebug": ndebug, "functions_with_body": sum(1 for f in ast.funcs if f.get("body"))})
@@ -1245,6 +1245,23 @@ def reserve_rules(run, rule, ast):
         if len([r for r in roles if r[0] == "reserve in a base"]) < 2 or len(roles) < 5:
             run.broken.append("%s: reservation calls not recognised (%s)" % (short(f), [r[0] for r in roles]))
             continue
+        # which sets the reservations range over: every (transitive) base, every covariant class
+        for what, c in roles:
+            loops = _enclosing(parent, c, ("CXXForRangeStmt",))
+            if what == "reserve in a base":
+                rng = astq.strip(loops[0]["range"]) if loops else None
+                mem = [x["member"] for x in astq.walk(rng) if x.get("k") == "MemberExpr"] if rng else []
+                okr = bool(mem) and mem[0] == "transitive_bases"
+                run.instance(rule, "%s: a slot taken is reserved in ALL (transitive) bases" % short(f), (f["file"], c["l"]), ok=okr)
+                if not okr:
+                    run.violation(rule, "compiler::assign_lattice_slots|reservation-set", "the reservation loop ranges over `%s`, not over transitive_bases: an indirect base keeps the slot free and can hand it to another method" % (mem[0] if mem else "?"), (f["file"], c["l"]))
+            if what == "mark used in a covariant class":
+                rng = astq.strip(loops[0]["range"]) if loops else None
+                mem = [x["member"] for x in astq.walk(rng) if x.get("k") == "MemberExpr"] if rng else []
+                okr = bool(mem) and mem[0] == "covariant_classes"
+                run.instance(rule, "%s: a slot taken is marked used in ALL covariant classes" % short(f), (f["file"], c["l"]), ok=okr)
+                if not okr:
+                    run.violation(rule, "compiler::assign_lattice_slots|covariant-set", "the propagation loop ranges over `%s`, not over covariant_classes" % (mem[0] if mem else "?"), (f["file"], c["l"]))
         cfg = astq.Cfg(f)
         for what, c in roles:
             b = cfg.block_of.get(c["id"])
